@@ -229,6 +229,7 @@ Decoded decode(const std::vector<uint8_t>& bytes) {
             case STRANS:
                 if (st != S_ELEM || !(el == SREF || el == AREF || el == TEXT) || have_xy) bad_state();
                 if (need(2)) strans = be16(pl);
+                if (strans & 0x0006) d.has_unsupported = true;
                 have_strans = true;
                 break;
             case MAG:
@@ -493,6 +494,7 @@ Choices random_choices(sim::Rng& r) {
     c.str_ts_differs = r.chance(0.5);
     c.denorm_depth = r.chance(0.5) ? 1 : (int)r.range(2, 13);
     c.zero_style = r.chance(0.7) ? 0 : (int)r.range(1, 3);
+    c.abs_bits = r.chance(0.92) ? 0 : 2 * (int)r.range(1, 3);
     return c;
 }
 
@@ -506,6 +508,7 @@ J to_json(const Choices& c) {
     j.set("denorm_reals", c.denorm_reals);
     j.set("denorm_depth", (int64_t)c.denorm_depth);
     j.set("zero_style", (int64_t)c.zero_style);
+    j.set("abs_bits", (int64_t)c.abs_bits);
     j.set("pad_after_endlib", c.pad_after_endlib);
     j.set("xy_split", c.xy_split);
     j.set("text_path_records", c.text_path_records);
@@ -529,6 +532,7 @@ Choices choices_from(const J& j) {
     c.denorm_reals = j.getb("denorm_reals");
     c.denorm_depth = j.has("denorm_depth") ? (int)j.geti("denorm_depth") : 1;
     c.zero_style = j.has("zero_style") ? (int)j.geti("zero_style") : 0;
+    c.abs_bits = (int)j.geti("abs_bits", 0);
     c.pad_after_endlib = j.getb("pad_after_endlib");
     c.xy_split = (int)j.geti("xy_split");
     c.text_path_records = j.getb("text_path_records");
@@ -592,9 +596,10 @@ std::vector<uint8_t> encode(const model::MLib& m, const Choices& c, bool* expect
         }
     };
     auto put_strans = [&](bool xrefl, double mag, double rot) {
-        bool nondefault = xrefl || mag != 1 || rot != 0;
+        bool nondefault = xrefl || mag != 1 || rot != 0 || c.abs_bits;
         if (!nondefault && !c.explicit_defaults) return;
-        e.rec_i16(STRANS, {(uint16_t)(xrefl ? 0x8000 : 0)}, DT_BITS);
+        if (c.abs_bits) unsupported = true;
+        e.rec_i16(STRANS, {(uint16_t)((xrefl ? 0x8000 : 0) | (c.abs_bits & 0x0006))}, DT_BITS);
         if (mag != 1 || c.explicit_defaults) e.rec_r64(MAG, {mag}, c.denorm_reals ? c.denorm_depth : 0);
         if (rot != 0 || c.explicit_defaults) e.rec_r64(ANGLE, {rot}, c.denorm_reals ? c.denorm_depth : 0, c.zero_style);
     };
